@@ -567,7 +567,10 @@ def execute(scn, keep_objects=False, wall_limit=None):
         signal.signal(signal.SIGVTALRM, old)
 
 
-def _execute(scn, keep_objects=False):
+def _execute(scn, keep_objects=False, prev_ctx=None):
+    """One phase.  With prev_ctx the element objects of the previous phase
+    are reused (only scn['phase_decls'] are declared, on top of what is
+    already declared) and a new Powertrain is assembled."""
     g = gp()
     U = g.units
     ctx = Ctx()
@@ -587,6 +590,9 @@ def _execute(scn, keep_objects=False):
     # -- construct
     ctx.objs = []
     for i, spec in enumerate(scn['elements']):
+        if prev_ctx is not None and i < len(prev_ctx.objs):
+            ctx.objs.append(prev_ctx.objs[i])
+            continue
         try:
             ctx.objs.append(construct(spec))
             H['build'].append({'ev': 'construct', 'i': i, 'exc': None})
@@ -596,7 +602,10 @@ def _execute(scn, keep_objects=False):
     track_rel = scn.get('track_relations', False)
 
     # -- declarations
+    first_decl = scn.get('phase_first_decl', 0) if prev_ctx is not None else 0
     for k, d in enumerate(scn['decls']):
+        if k < first_decl:
+            continue
         ev = {'ev': 'decl', 'k': k, 'exc': None}
         if ctx.objs[d['m']] is None or ctx.objs[d['s']] is None:
             ev['exc'] = ['Skipped', 'element missing']
@@ -822,6 +831,34 @@ def _execute(scn, keep_objects=False):
                 res['elements_type'] = type(pt.elements).__name__
                 res['self_locking'] = pt.self_locking
                 rec['probe'] = res
+            elif kind == 'motor_probe':
+                # direct use of the motor's own API on user-set state; the
+                # live driving torque may be re-expressed in another unit
+                # (in place or by assignment) before the current is asked for
+                mot = pt.elements[0]
+                pts = []
+                for q in op['points']:
+                    r = {'exc': None}
+                    try:
+                        mot.angular_speed = Q(U.AngularSpeed, q['w'])
+                        mot.pwm = q['pwm']
+                        mot.compute_torque()
+                        r['w'] = si.obj_si(mot.angular_speed)
+                        r['pwm'] = float(mot.pwm)
+                        r['T'] = si.obj_si(mot.driving_torque)
+                        if q.get('relabel'):
+                            if q.get('inplace'):
+                                mot.driving_torque.to(q['relabel'], inplace=True)
+                            else:
+                                mot.driving_torque = \
+                                    mot.driving_torque.to(q['relabel'])
+                        if mot.electric_current_is_computable:
+                            mot.compute_electric_current()
+                            r['i'] = si.obj_si(mot.electric_current)
+                    except Exception as ex:      # noqa
+                        r['exc'] = _exc(ex)
+                    pts.append(r)
+                rec['points'] = pts
             elif kind == 'redeclare':
                 try:
                     declare(ctx, op['decl'])
@@ -842,9 +879,29 @@ def _execute(scn, keep_objects=False):
             shutil.rmtree(workdir, ignore_errors=True)
     H['rule_calls'] = ctx.rule_calls
     H['load_calls'] = ctx.load_calls
+    if scn.get('next') and H.get('aborted_at') is None and not pt.time:
+        # a further phase on the SAME element objects: more declarations
+        # (re-mating / re-routing), a new Powertrain, a new schedule
+        H['next'] = _execute(next_phase(scn), keep_objects, prev_ctx=ctx)
     if keep_objects:
         H['_ctx'] = ctx
     return H
+
+
+def next_phase(scn):
+    """The scenario document of the phase after scn (same elements plus new
+    ones, all declarations so far plus the new ones, a new schedule)."""
+    nx = scn['next']
+    s2 = {k: v for k, v in scn.items() if k != 'next'}
+    s2['elements'] = scn['elements'] + nx.get('elements', [])
+    s2['decls'] = scn['decls'] + nx['decls']
+    s2['phase_first_decl'] = len(scn['decls'])
+    s2['schedule'] = nx['schedule']
+    if 'init' in nx:
+        s2['init'] = nx['init']
+    if 'next' in nx:
+        s2['next'] = nx['next']
+    return s2
 
 
 # ---------------------------------------------------------------------------
